@@ -26,6 +26,7 @@ type ctx struct {
 	pendBuf  []pendBuf
 	pendHist []pendHist
 	burst    bool
+	ringHung bool
 }
 
 // guarded runs fn under recover and a deadline: a panic or hang of the real code is an outcome.
@@ -60,7 +61,7 @@ type caseHdr struct {
 
 func main() {
 	f := lib.ParseFlags()
-	res := lib.NewResult("ring: case has >= 1 Link/Unlink on rings of total size >= 2; buffered: case grows or shrinks the ring at least once or removes from empty; hist: >= 2 operations overlap in real time and >= 1 of them mutates")
+	res := lib.NewResult("ring: case has >= 1 Link/Unlink on rings of total size >= 2 or calls methods on zero-value/literal elements; buffered: case grows or shrinks the ring at least once or removes from empty; hist: >= 2 operations overlap in real time and >= 1 of them mutates")
 	drv, err := lib.StartDrv(f.Drv, "C14")
 	if err != nil {
 		fmt.Fprintln(os.Stderr, "c14: cannot start model driver:", err)
@@ -88,6 +89,7 @@ func main() {
 	}
 	c.bufferedExhaustive(quick)
 	c.bufferedRandom(400 * mult)
+	c.ringZeroValue()
 	c.ringRandom(300 * mult)
 	c.histories(quick, mult)
 	c.forcedGetOrCreate()
